@@ -151,7 +151,7 @@ def enumerate_comps(k):
 # --------------------------------------------------------------------------
 # work units
 # --------------------------------------------------------------------------
-NS_ALL = list(range(1, 41))
+NS_ALL = list(range(0, 41))
 
 
 def units(tier, seed):
@@ -165,10 +165,10 @@ def units(tier, seed):
     for idx, (ids, shapes) in enumerate(pairs):
         if tier == "quick":
             s = shapes[(idx + seed) % len(shapes)]
-            jobs.append((ids, s, True, [1, 2, 7, 40]))
+            jobs.append((ids, s, True, [0, 1, 2, 7, 40]))
         else:
             for s in shapes:
-                jobs.append((ids, s, True, [1, 2, 3, 5, 8, 13, 21, 40]))
+                jobs.append((ids, s, True, [0, 1, 2, 3, 5, 8, 13, 21, 40]))
             jobs.append((ids, shapes[(idx + seed) % len(shapes)], False, [1, 40]))
     triples = enumerate_comps(3)
     if tier == "quick":
